@@ -57,6 +57,7 @@ def opcode_table(F):
     r = RuleResult("R-OPCODE-TABLE",
                    "every Opcode/MacroOpcode default method constructs exactly one wasmparser::Operator, passes it to Inject::inject exactly once on self and returns self; the variant equals the reviewed table entry for that helper name; every immediate comes from exactly one parameter through bit-preserving conversions; multi-immediate helpers keep field/parameter names aligned")
     table = json.load(open(os.path.join(VERIF, "tables", "opcode_table.json")))["helpers"]
+    sigs = json.load(open(os.path.join(VERIF, "tables", "opcode_table.json"))).get("signatures", {})
     opv = F.variants(OP)
     fns = [f for f in F.fns if (f.get("in_trait") or "").endswith(("opcode::Opcode", "opcode::MacroOpcode")) and f.get("body")]
     r.count("helpers", len(fns))
@@ -67,6 +68,13 @@ def opcode_table(F):
         r.analysed.append(f["path"])
         I = Interp(F, opaque=("from",))
         ps = [(p["pat"].get("name"), p["ty"]) for p in f["params"]]
+        if name in sigs:
+            cur = [n for n, _ in ps if n != "self"]
+            same_names = sorted(cur) == sorted(sigs[name])
+            ok_sig = cur == sigs[name] or not same_names
+            r.ob(ok_sig, {"helper": name, "parameter_order": cur})
+            if not ok_sig:
+                r.violate("%s | parameter order" % f["path"], F.loc(f), "helper `%s` takes its immediates in the order %s; callers were written against %s — the call still compiles (same types) and the operands arrive crossed" % (name, cur, sigs[name]))
         ptypes = {n: t for n, t in ps}
         ret = I.call_fn(f, [("s", n) for n, _ in ps])
         inj = [e for e in I.effects if e[1].endswith("Inject::inject") or e[1].endswith("::inject")]
